@@ -635,6 +635,9 @@ structure World where
   price : Int                          -- vm param storage_price, ugnot per byte
   defaultDeposit : Int
   restricted : Bool                    -- is ugnot a restricted denom (refunds go to the collector)
+  /-- users that have an account: the genesis ones, and whoever was ever credited
+      (`AddCoins` creates the account; MsgRun needs its caller to have one) -/
+  hasAccount : Nat → Bool
 
 def ugnot : Str := S!"ugnot"
 
@@ -746,8 +749,6 @@ structure Chain where
   env : Coins → Env
   /-- the registry of persisted bankers (ids 0 … k-1) every message starts from -/
   persisted : List BankerInfo
-  /-- users that have an account -/
-  hasAccount : Nat → Bool
 
 /-- the static environment of a message on world `w` sending `send` along -/
 def Chain.envFor (ch : Chain) (w : World) (send : Coins) : Env :=
@@ -757,9 +758,14 @@ def startState (ch : Chain) (w : World) : St :=
   { bank := ⟨w.led, []⟩, toks := [], bankers := ch.persisted, spent := [],
     params := w.params, rmeta := w.rmeta, accum := [] }
 
+/-- receiving coins creates the account (`BankKeeper.ensureAccount`) -/
+def creditedUsers (hasAccount : Nat → Bool) (log : List Ev) : Nat → Bool :=
+  fun i => hasAccount i || log.any (fun e => decide (e.addr = Addr.user i) && decide (0 < e.amt))
+
 def finish (w : World) (caller : Addr) (maxDeposit : Int) (st : St) : Except Fail Outcome := do
   let ds ← processStorageDeposit w caller maxDeposit st
-  pure { world := { w with led := ds.bank.led, params := st.params, rmeta := ds.rmeta, realms := ds.realms },
+  pure { world := { w with led := ds.bank.led, params := st.params, rmeta := ds.rmeta, realms := ds.realms,
+                           hasAccount := creditedUsers w.hasAccount ds.bank.log },
          log := ds.bank.log, toks := st.toks, bankers := st.bankers, diffs := storageDiffs st }
 
 def step (ch : Chain) (w : World) : Msg → Except Fail Outcome
@@ -777,7 +783,7 @@ def step (ch : Chain) (w : World) : Msg → Except Fail Outcome
       finish w (.user signer) maxDeposit st
   | .run signer send maxDeposit prog =>
     if !coinsValid send || maxDeposit < 0 then .error .basic
-    else if !ch.hasAccount signer then .error .unknownAddress
+    else if !w.hasAccount signer then .error .unknownAddress
     else do
       let env := ch.envFor w send
       let st := startState ch w
@@ -797,6 +803,7 @@ def step (ch : Chain) (w : World) : Msg → Except Fail Outcome
       | none => .error .badAddress
       | some d => do
         let bank ← sendCoins w.restricted ⟨w.led, []⟩ (.user signer) d amt .bankSend
-        pure { world := { w with led := bank.led }, log := bank.log, toks := [], bankers := ch.persisted, diffs := [] }
+        pure { world := { w with led := bank.led, hasAccount := creditedUsers w.hasAccount bank.log },
+               log := bank.log, toks := [], bankers := ch.persisted, diffs := [] }
 
 end GnoVerif.C08
